@@ -92,8 +92,8 @@ pub struct Verdict {
 }
 
 /// Writes the replay artefact for a found violation after replaying it twice.
-pub fn confirm_and_write<H: Harness>(
-    h: &H,
+pub fn confirm_and_write(
+    h: &dyn Harness,
     prop: &str,
     f: &Found,
     machinery: &mut Vec<String>,
@@ -141,7 +141,7 @@ pub struct Summary {
     pub machinery: Vec<String>,
 }
 
-pub fn iterate<H: Harness>(h: &H, spec: &Spec, start: Instant) -> Summary {
+pub fn iterate_dyn(h: &dyn Harness, spec: &Spec, cap: Instant, known: &[Known]) -> Summary {
     let mut sum = Summary {
         bound_completed: None,
         bound_interrupted_at: None,
@@ -151,11 +151,7 @@ pub fn iterate<H: Harness>(h: &H, spec: &Spec, start: Instant) -> Summary {
         machinery: vec![],
     };
     for (k, b) in spec.bounds.iter().enumerate() {
-        let deadline = if k == 0 {
-            None
-        } else {
-            Some(start + spec.wall_cap)
-        };
+        let deadline = if k == 0 { None } else { Some(cap) };
         if let Some(d) = deadline {
             if Instant::now() > d {
                 break;
@@ -174,7 +170,12 @@ pub fn iterate<H: Harness>(h: &H, spec: &Spec, start: Instant) -> Summary {
             break;
         }
         sum.bound_completed = Some(*b);
-        let has = !r.stats.found.is_empty();
+        // known findings do not stop the iteration; anything else does
+        let has = r
+            .stats
+            .found
+            .iter()
+            .any(|f| !known.iter().any(|k| k.signature == f.v.signature));
         sum.found = r.stats.found.clone();
         sum.stats = Some(r.stats);
         if has {
@@ -202,60 +203,104 @@ pub fn dedupe(found: &[Found]) -> Vec<Found> {
 }
 
 pub fn run_property<H: Harness>(h: &H, spec: Spec) -> i32 {
+    run_parts(&[h as &dyn Harness], spec)
+}
+
+/// Runs every part (harness) of a property and merges the results into one evidence file.
+pub fn run_parts(parts: &[&dyn Harness], spec: Spec) -> i32 {
     let start = Instant::now();
-    let sum = iterate(h, &spec, start);
-    let mut machinery = sum.machinery.clone();
     let known = load_known(spec.prop);
     let mut known_seen = vec![];
     let mut violations: Vec<(String, PathBuf)> = vec![];
-    for f in dedupe(&sum.found) {
-        if let Some(k) = known.iter().find(|k| k.signature == f.v.signature) {
-            // still confirm it replays; a known finding that stops reproducing is just absent
-            known_seen.push(k.signature.clone());
-            println!("KNOWN-FINDING: property={} {}", spec.prop, k.what);
-            let _ = confirm_and_write(h, spec.prop, &f, &mut vec![]);
-            continue;
-        }
-        if let Some(p) = confirm_and_write(h, spec.prop, &f, &mut machinery) {
-            println!("VIOLATION property={} replay={}", spec.prop, p.display());
-            eprintln!("  {}: {}", f.v.signature, f.v.message);
-            violations.push((f.v.signature.clone(), p));
-        }
-    }
-    // samples: canonical run of config 0, the deepest execution
+    let mut machinery: Vec<String> = vec![];
     let mut samples = vec![];
-    if h.n_configs() > 0 {
-        let (o, _) = h.run(0, &[], true);
-        samples.push(json!({"config": h.config_json(0), "choices": [], "trace": o.render.unwrap_or_default().lines().take(120).collect::<Vec<_>>() }));
-    }
-    if let Some(st) = &sum.stats {
-        if let Some((cfg, ch)) = &st.deepest {
-            let (o, _) = h.run(*cfg, ch, true);
-            samples.push(json!({"config": h.config_json(*cfg), "choices": ch, "trace": o.render.unwrap_or_default().lines().take(160).collect::<Vec<_>>() }));
+    let mut part_docs = vec![];
+    let mut tot = Stats::default();
+    let (mut states, mut nontrivial, mut outcomes) = (0usize, 0usize, 0usize);
+    let mut bound_completed: Option<u32> = None;
+    let mut all_completed = true;
+    let mut interrupted: Vec<Value> = vec![];
+    let mut configs = 0;
+    // the wall cap is shared: each part gets an equal slice of what is left
+    for (pi, h) in parts.iter().enumerate() {
+        let left = spec.wall_cap.saturating_sub(start.elapsed());
+        let slice = left / (parts.len() - pi) as u32;
+        let part_spec_cap = Instant::now() + slice;
+        let sum = iterate_dyn(*h, &spec, part_spec_cap, &known);
+        machinery.extend(sum.machinery.iter().cloned());
+        for f in dedupe(&sum.found) {
+            if let Some(k) = known.iter().find(|k| k.signature == f.v.signature) {
+                if !known_seen.contains(&k.signature) {
+                    known_seen.push(k.signature.clone());
+                    println!("KNOWN-FINDING: property={} {}", spec.prop, k.what);
+                }
+                let _ = confirm_and_write(*h, spec.prop, &f, &mut vec![]);
+                continue;
+            }
+            if let Some(p) = confirm_and_write(*h, spec.prop, &f, &mut machinery) {
+                println!("VIOLATION property={} replay={}", spec.prop, p.display());
+                eprintln!("  {}: {}", f.v.signature, f.v.message);
+                violations.push((f.v.signature.clone(), p));
+            }
         }
+        if h.n_configs() > 0 {
+            let (o, _) = h.run(0, &[], true);
+            samples.push(json!({"harness": h.name(), "config": h.config_json(0), "choices": [], "trace": o.render.unwrap_or_default().lines().take(100).collect::<Vec<_>>() }));
+        }
+        if let Some(st) = &sum.stats {
+            if let Some((cfg, ch)) = &st.deepest {
+                let (o, _) = h.run(*cfg, ch, true);
+                samples.push(json!({"harness": h.name(), "config": h.config_json(*cfg), "choices": ch, "trace": o.render.unwrap_or_default().lines().take(140).collect::<Vec<_>>() }));
+            }
+        }
+        match sum.bound_completed {
+            Some(b) => bound_completed = Some(bound_completed.map(|x| x.min(b)).unwrap_or(b)),
+            None => all_completed = false,
+        }
+        if let Some((b, n)) = sum.bound_interrupted_at {
+            interrupted.push(json!({"harness": h.name(), "bound": b, "executions_when_cut": n}));
+        }
+        configs += h.n_configs();
+        let st = sum.stats.unwrap_or_default();
+        part_docs.push(json!({
+            "harness": h.name(), "configs": h.n_configs(), "bound_completed": sum.bound_completed,
+            "rounds": sum.rounds, "executions": st.evaluations, "states": st.states.len(),
+            "transitions": st.transitions, "distinct_nontrivial": st.nontrivial.len(),
+            "distinct_outcomes": st.outcomes.len(), "max_choice_points": st.max_points, "max_steps": st.max_steps,
+        }));
+        states += st.states.len();
+        nontrivial += st.nontrivial.len();
+        outcomes += st.outcomes.len();
+        tot.evaluations += st.evaluations;
+        tot.transitions += st.transitions;
+        tot.extra_execs += st.extra_execs;
+        tot.rechecks += st.rechecks;
+        tot.max_points = tot.max_points.max(st.max_points);
+        tot.max_steps = tot.max_steps.max(st.max_steps);
     }
-    let st = sum.stats.unwrap_or_default();
+    if !all_completed {
+        bound_completed = None;
+    }
     let mut cov = json!({
-        "evaluations": st.evaluations + st.extra_execs,
-        "executions": st.evaluations,
-        "differential_reruns": st.extra_execs,
-        "states": st.states.len(),
-        "transitions": st.transitions,
-        "traces_validated_against_impl": st.evaluations,
-        "distinct_nontrivial": st.nontrivial.len(),
-        "distinct_outcomes": st.outcomes.len(),
+        "evaluations": tot.evaluations + tot.extra_execs,
+        "executions": tot.evaluations,
+        "differential_reruns": tot.extra_execs,
+        "states": states,
+        "transitions": tot.transitions,
+        "traces_validated_against_impl": tot.evaluations,
+        "distinct_nontrivial": nontrivial,
+        "distinct_outcomes": outcomes,
         "rule": spec.rule,
         "samples": samples,
-        "exhaustive": sum.bound_completed.is_some() && machinery.is_empty(),
-        "bound_completed": sum.bound_completed,
-        "bound_interrupted_at": sum.bound_interrupted_at.map(|(b, n)| json!({"bound": b, "executions_when_cut": n})),
-        "rounds": sum.rounds,
-        "configs": h.n_configs(),
-        "max_choice_points": st.max_points,
-        "max_steps": st.max_steps,
-        "determinism_rechecks": st.rechecks,
+        "exhaustive": bound_completed.is_some() && machinery.is_empty(),
+        "bound_completed": bound_completed,
+        "bound_interrupted_at": interrupted,
+        "parts": part_docs,
+        "configs": configs,
+        "max_choice_points": tot.max_points,
+        "max_steps": tot.max_steps,
+        "determinism_rechecks": tot.rechecks,
         "known_findings_seen": known_seen,
-        "harness": h.name(),
         "threads": nthreads(),
     });
     for (k, v) in &spec.extra {
@@ -274,8 +319,8 @@ pub fn run_property<H: Harness>(h: &H, spec: Spec) -> i32 {
     write_evidence(spec.prop, &ev);
     eprintln!(
         "{} {}: bound {:?} executions {} states {} transitions {} nontrivial {} outcomes {} wall {:.1}s violations {} known {}",
-        spec.prop, spec.tier.name(), sum.bound_completed, st.evaluations, st.states.len(), st.transitions,
-        st.nontrivial.len(), st.outcomes.len(), start.elapsed().as_secs_f64(), violations.len(), known_seen.len()
+        spec.prop, spec.tier.name(), bound_completed, tot.evaluations, states, tot.transitions,
+        nontrivial, outcomes, start.elapsed().as_secs_f64(), violations.len(), known_seen.len()
     );
     if !machinery.is_empty() {
         for m in machinery.iter().take(5) {
@@ -283,7 +328,7 @@ pub fn run_property<H: Harness>(h: &H, spec: Spec) -> i32 {
         }
         return 2;
     }
-    if sum.bound_completed.is_none() {
+    if bound_completed.is_none() {
         eprintln!("machinery: no bound completed");
         return 2;
     }
